@@ -40,14 +40,15 @@ Upd(f, ps, rm, Norm(_)) ==
       dom == (DOMAIN f \cup DOMAIN new) \ SeqToSet(rm)
   IN [k \in dom |-> IF k \in DOMAIN new THEN Norm(new[k]) ELSE f[k]]
 
-Empty == [veh |-> <<>>, st |-> <<>>, bs |-> <<>>, req |-> <<>>, now |-> 0]
+Empty == [veh |-> <<>>, st |-> <<>>, bs |-> <<>>, req |-> <<>>, now |-> 0, ord |-> <<>>]
 
 Apply(St, e) ==
   [veh |-> Upd(St.veh, e.d.veh, e.d.rmveh, NormVeh),
    st  |-> Upd(St.st, e.d.st, e.d.rmst, NormSt),
    bs  |-> Upd(St.bs, e.d.bs, e.d.rmbs, NormBs),
    req |-> Upd(St.req, e.d.req, e.d.rmreq, NormReq),
-   now |-> IF "time" \in DOMAIN e THEN e.time ELSE St.now]
+   now |-> IF "time" \in DOMAIN e THEN e.time ELSE St.now,
+   ord |-> IF e.ev = "init" /\ "vrank" \in DOMAIN e THEN PairsToFn(e.vrank) ELSE St.ord]
 
 Has(P) == P \in Enabled
 
@@ -428,7 +429,9 @@ MonStep(Hh, B, T, e) ==
   \cup (IF Has("C09") /\ e.ev = "stacks" THEN C09_Stacks(Hh, e) ELSE {})
   \cup (IF Has("C10") /\ e.ev \in {"instr", "update"} THEN C10_Step(B, T) ELSE {})
   \cup (IF Has("C10") /\ e.ev = "gen" THEN C10_Builtin(B, e.name, e.instrs) ELSE {})
-  \cup (IF Has("C18") /\ upd THEN C18_Step(B, T, e.v, LAMBDA a, b : Hh.vrank[a] < Hh.vrank[b]) ELSE {})
+  \cup (IF Has("C18") /\ upd THEN C18_Step(B, T, e.v, LAMBDA a, b : Hh.vrank[a] < Hh.vrank[b], "") ELSE {})
+  \cup (IF Has("C18") /\ e.ev = "instr" /\ e.v \in DOMAIN B.veh /\ e.v \in DOMAIN T.veh
+        THEN C18_Step(B, T, e.v, LAMBDA a, b : Hh.vrank[a] < Hh.vrank[b], "by_instruction/") ELSE {})
   \cup (IF Has("C04") THEN (IF upd /\ "num" \in DOMAIN e THEN C04_Update(B, T, e.v, e.num, e.out)
                             ELSE IF e.ev = "update" THEN {} ELSE C04_Frame(B, T)) ELSE {})
   \cup (IF Has("C05") THEN (IF upd THEN C05_Update(B, T, e.v, SumOver(Hh.value, PickedNow(B, T, e), LAMBDA r : Hh.value[r]))
